@@ -354,11 +354,50 @@ static void padded_case(int fmt, const std::vector<int>& ops, const std::string&
     R->observe(vf::fnv(cas));
 }
 
+// case "Q <fmt> <ops...>": E2 over the reader's own state.  One file with four arrays (INTE, REAL spanning two blocks, CHAR,
+// DOUB last); every sequence of <= 3 (thorough 4) reader operations on ONE EclFile object; every get() must return what was
+// written, during the sequence and in the sweep over all arrays after it.
+static void reader_case(int fmt, const std::vector<int>& ops, const std::string& cas) {
+    R->evaluations++;
+    const std::string rp = "{\"case\": " + vf::jstr(cas) + "}";
+    static const char* opn[] = {"loadData()", "loadData(\"B\")", "loadData(3)", "loadData({3,0})", "loadData({1,2})", "get<int>(0)", "get<double>(\"D\")", "clearData()", "get<float>(1)"};
+    const std::string fn = g_dir + (fmt ? "/Q.FX" : "/Q.X");
+    const std::vector<int> A = {7, -8, 9}; std::vector<float> B(1001); for (int i = 0; i < 1001; ++i) B[i] = 0.5f * i - 3.0f;
+    const std::vector<std::string> C = {"ONE", "TWO 2"}; const std::vector<double> D = {1.25, -2.5e10};
+    static int written[2] = {0, 0};
+    if (!written[fmt]) { ::unlink(fn.c_str()); Opm::EclIO::EclOutput out(fn, fmt != 0); out.write("A", A); out.write("B", B); out.write("C", C); out.write("D", D); written[fmt] = 1; }
+    std::string hs;
+    const std::string kf = std::string("C07:reader-order:") + (fmt ? "fmt" : "bin");
+    try {
+        EclFile f(fn);
+        for (int o : ops) {
+            hs += std::string(hs.empty() ? "" : " ; ") + opn[o];
+            bool ok = true;
+            switch (o) {
+            case 0: f.loadData(); break;
+            case 1: f.loadData("B"); break;
+            case 2: f.loadData(3); break;
+            case 3: f.loadData(std::vector<int>{3, 0}); break;
+            case 4: f.loadData(std::vector<int>{1, 2}); break;
+            case 5: ok = f.get<int>(0) == A; break;
+            case 6: ok = f.get<double>("D") == D; break;
+            case 7: f.clearData(); break;
+            case 8: ok = f.get<float>(1) == B; break;
+            }
+            if (!ok) { R->violation(kf + ":value", "EclFile query " + std::string(opn[o]) + " returns other values than written after the sequence [" + hs + "] on one object", rp); return; }
+        }
+        hs += " ; sweep";
+        if (f.get<int>(0) != A || f.get<float>(1) != B || f.get<std::string>(2) != C || f.get<double>(3) != D) { R->violation(kf + ":value", "EclFile returns other values than written in the sweep after the sequence [" + hs + "] on one object", rp); return; }
+    } catch (const std::exception& e) { R->violation(kf + ":throws", "EclFile throws (" + std::string(e.what()).substr(0, 160) + ") in the sequence [" + hs + "] on one object", rp); return; }
+    R->observe(vf::fnv(cas));
+}
+
 static void do_case(const std::string& c) {
     // case strings:  L <len> <variant> <fmt> <ix> | S <a> <b> <c> <fmt> | D <len> <fmt> <ix>
     char k; int a, b, cc, d, e;
     if (std::sscanf(c.c_str(), "%c %d %d %d %d %d", &k, &a, &b, &cc, &d, &e) < 3) throw std::runtime_error("bad case " + c);
     R->current(c);
+    if (k == 'Q') { std::istringstream is(c.substr(1)); int fmt; is >> fmt; std::vector<int> ops; int x; while (is >> x) ops.push_back(x); reader_case(fmt, ops, c); return; }
     if (k == 'P') { std::istringstream is(c.substr(1)); int fmt; is >> fmt; std::vector<int> ops; int x; while (is >> x) ops.push_back(x); padded_case(fmt, ops, c); return; }
     if (k == 'L') run_case(len_case(a, b), cc, d, "", c);
     else if (k == 'W') {   // wide C0nn (nn >= 78): first "does not crash" in a child, then the normal oracles
@@ -377,7 +416,7 @@ int main(int argc, char** argv) {
     const char* sc = std::getenv("VERIF_SCRATCH");
     g_dir = std::string(sc ? sc : "/tmp") + "/C07." + std::to_string(getpid());
     std::string cmd = "mkdir -p " + g_dir; if (std::system(cmd.c_str())) return 2;
-    run.rule = "every array length 0..2002 (strings 0..212) x {INTE,REAL,DOUB,LOGI,CHAR,C0nn,MESS} x {formatted,unformatted} x {ECL,IX} with extremes rotated over positions; all sequences of <=3 arrays over a 12-symbol (type,length-class) alphabet; every sequence of <= 3 (thorough 4) assignments to a reused PaddedOutputString<8> element (7 values incl. empty/over-long, copy, rebuild) written as a CHAR array after every step; distinct = distinct file byte strings";
+    run.rule = "every array length 0..2002 (strings 0..212) x {INTE,REAL,DOUB,LOGI,CHAR,C0nn,MESS} x {formatted,unformatted} x {ECL,IX} with extremes rotated over positions; all sequences of <=3 arrays over a 12-symbol (type,length-class) alphabet; every sequence of <= 3 (thorough 4) assignments to a reused PaddedOutputString<8> element (7 values incl. empty/over-long, copy, rebuild) written as a CHAR array after every step; every sequence of <= 3 (thorough 4) reader operations {loadData all / by name / by index / by index list in both orders, get by index / name, clearData} on one EclFile object followed by a sweep over all arrays; distinct = distinct file byte strings";
     run.assumptions = {"reference codec in the harness written from the published Eclipse layout (not from EclIOdata.hpp)", "values outside the extremes alphabet not covered", "lengths >= 2^31 only through size arithmetic (thorough)"};
     if (!run.replay_path.empty()) { do_case(run.replay_path); std::string rm = "rm -rf " + g_dir; std::system(rm.c_str()); return run.finish(); }
 
@@ -402,6 +441,16 @@ int main(int argc, char** argv) {
         const int L = run.thorough() ? 4 : 3; std::vector<int> ops;
         std::function<void()> rec = [&]() {
             if ((int)ops.size() == L) { if (!run.mine()) return; for (int fmt = 0; fmt < 2; ++fmt) { std::string c = "P " + std::to_string(fmt); for (int o : ops) c += " " + std::to_string(o); do_case(c); } return; }
+            for (int o = 0; o < 9; ++o) { ops.push_back(o); rec(); ops.pop_back(); }
+        };
+        rec();
+    }
+    // reader operation sequences
+    {
+        const int L = run.thorough() ? 4 : 3; std::vector<int> ops;
+        std::function<void()> rec = [&]() {
+            if (!ops.empty() && run.mine()) for (int fmt = 0; fmt < 2; ++fmt) { std::string c = "Q " + std::to_string(fmt); for (int o : ops) c += " " + std::to_string(o); do_case(c); }
+            if ((int)ops.size() == L) return;
             for (int o = 0; o < 9; ++o) { ops.push_back(o); rec(); ops.pop_back(); }
         };
         rec();
